@@ -1217,7 +1217,7 @@ theorem gi_op_connect {w : World} (h : GI w) (c : String) (node : Nat) (client m
     · rename_i hany
       exact ⟨h, noConn_of_find_none h.2 (any_false_find hany)⟩
   generalize (if w.conns.any (fun e => e.1 == c) then w.drop c else w) = w1 at h1
-  exact gi_connect (gi_frame (w' := { w1 with out := w1.out.filter (fun e => e.1 != c) }) h1.1 rfl rfl rfl) _ _ _ _ _ _ _
+  exact gi_connect (gi_frame (w' := { w1 with out := w1.out.filter (fun e => e.1 != c), deaf := w1.deaf.filter (· != c) }) h1.1 rfl rfl rfl) _ _ _ _ _ _ _
     (noConn_congr h1.2 rfl)
 
 theorem gi_op_packet {w : World} (h : GI w) (c : String) (pkt : CPkt) : GI (applyOp w (.packet c pkt)) := by
@@ -1236,7 +1236,8 @@ theorem gi_op_openConn {w : World} (h : GI w) (c : String) (node : Nat) : GI (ap
     · exact gi_closeFromClient h c
     · rename_i hany
       exact ⟨h, noConn_of_find_none h.2 (any_false_find hany)⟩
-  exact gi_openConn h1.1 c node h1.2
+  generalize (if w.conns.any (fun e => e.1 == c) then closeFromClient w c else w) = w1 at h1
+  exact gi_openConn (gi_frame (w' := { w1 with deaf := w1.deaf.filter (· != c) }) h1.1 rfl rfl rfl) c node (noConn_congr h1.2 rfl)
 
 theorem gi_op_raw {w : World} (h : GI w) (c : String) (b : List Nat) : GI (applyOp w (.raw c b)) := gi_rawBytes h c b
 
